@@ -58,6 +58,11 @@ type Case struct {
 	// with metadata carrying a new session key (demons.go COMMAND_CHECKIN adopts it): 0 = nobody,
 	// otherwise 1-based index into the hops strictly between first hop and target (mod their number)
 	Rekey int `json:"rekey,omitempty"`
+	// 'operator commands between issue and poll' (between_test.go): Extra = further tasks queued for
+	// other agents of the tree together with the target's two; Between = operator commands run after
+	// the tasks are queued and before the first hop polls
+	Extra   []ExtraTask `json:"extra,omitempty"`
+	Between []BetweenOp `json:"between,omitempty"`
 }
 
 func keyFrom(seed byte) ([]byte, []byte) {
@@ -110,6 +115,7 @@ func gen(t *rapid.T) Case {
 			}
 		}
 	}
+	genBetween(t, &c)
 	return c
 }
 
@@ -257,6 +263,15 @@ func check(c Case) *core.Violation {
 	target := chain[depth]
 	reqSleep := c.TaskID
 	reqCd := c.TaskID ^ 0x01010101
+	if len(c.Extra) > 0 || len(c.Between) > 0 {
+		if v := downwardBetween(c, w, chain, side, tag); v != nil {
+			return v
+		}
+		if v := upward(c, w, chain, side, target, reqCd, tag); v != nil {
+			return v
+		}
+		return relink(c, w, chain, tag)
+	}
 	w.Input("op", map[string]interface{}{"DemonID": target.NameID(), "CommandID": "11", "TaskID": fmt.Sprintf("%08x", reqSleep), "CommandLine": "sleep", "Arguments": fmt.Sprintf("%d;%d", c.Delay, c.Jitter)})
 	w.Input("op", map[string]interface{}{"DemonID": target.NameID(), "CommandID": "15", "TaskID": fmt.Sprintf("%08x", reqCd), "CommandLine": "cd", "SubCommand": "cd", "Arguments": c.Path})
 	code, resp := w.Post(demonref.Batch(chain[0].ID, 0, nil, chain[0].Key, chain[0].IV))
@@ -528,13 +543,17 @@ func classify(c Case) core.Class {
 	if big {
 		cl.Labels = append(cl.Labels, "id>=2^31")
 	}
+	if bl, fp := betweenLabels(c); fp != "none" {
+		cl.Labels = append(cl.Labels, bl...)
+		cl.Fingerprint += "|btw=" + fp
+	}
 	return cl
 }
 
 func TestC08(t *testing.T) {
 	core.Run(t, core.Spec[Case]{
 		Property: "C08", Sub: "a",
-		Rule: "pivot chains of depth 1-5 (optional sibling of the target) built through real, relayed SMB_CONNECT callbacks; ids from {1,2,2^31-1,2^31,2^32-1,random}, distinct keys; two operator tasks (sleep, fs/cd) for the last agent are unwrapped from the first hop's check-in reply layer by layer with each hop's own key and SmbRecv's frame rules; then a callback of the last agent is wrapped once per ancestor in scenarios ok / id never issued / id outstanding only for the parent / encrypted under the parent's key / sent by the sibling with the target's id / one frame mixing callbacks with never-issued ids and the outstanding one in either order; then (2 of 3 cases) one agent of the chain - the target or one of its ancestors - reconnects under a new directly connected agent (in half of these the old parent afterwards still hands in a frame it had read from the moved agent: the link must stay as the reconnect set it; in some a hop between the new first hop and the target answers a CHECKIN task with a new session key, which its layer must then be sealed with) and a third task for the last agent must be found, correctly wrapped for the new chain, at the new first hop and not at the old one. Non-trivial: depth >= 2 or an id >= 2^31; distinct = (depth, big id, sibling, scenario)",
+		Rule: "pivot chains of depth 1-5 (optional sibling of the target) built through real, relayed SMB_CONNECT callbacks; ids from {1,2,2^31-1,2^31,2^32-1,random}, distinct keys; two operator tasks (sleep, fs/cd) for the last agent are unwrapped from the first hop's check-in reply layer by layer with each hop's own key and SmbRecv's frame rules; then a callback of the last agent is wrapped once per ancestor in scenarios ok / id never issued / id outstanding only for the parent / encrypted under the parent's key / sent by the sibling with the target's id / one frame mixing callbacks with never-issued ids and the outstanding one in either order; then (2 of 3 cases) one agent of the chain - the target or one of its ancestors - reconnects under a new directly connected agent (in half of these the old parent afterwards still hands in a frame it had read from the moved agent: the link must stay as the reconnect set it; in some a hop between the new first hop and the target answers a CHECKIN task with a new session key, which its layer must then be sealed with) and a third task for the last agent must be found, correctly wrapped for the new chain, at the new first hop and not at the old one. Operator commands between issue and poll (more than half of the cases carry in-between commands, a third extra tasks; about 1 in 5 a `task clear` on an intermediate hop while a descendant's task is pending): together with the target's two tasks, further tasks (sleep, fs/cd) are queued for several agents of the tree - first hop, intermediate hops, target, sibling - before, between and after the target's; then, before the first hop polls, a generated sequence of 1-3 operator commands runs through the real paths (Session/Input with CommandID Teamserver: `task::clear` or `task::list` on the first hop / an intermediate hop / the target / the sibling; a further task for any agent; Session/MarkAsDead marking an agent alive or the sibling dead); every task of the first hop's reply is followed down the tree (each layer must name a child of the hop that opened it) and every task issued for an agent whose queue the operator did not clear (clearing the first hop's queue releases everything waiting there; clearing a pivot agent's queue releases only that agent's own tasks) must arrive exactly once, in the order of issue, under that agent's key with the issued arguments - in particular a descendant's pending task survives `task clear` on a hop above it; nothing unissued or repeated may arrive. Non-trivial: depth >= 2 or an id >= 2^31; distinct = (depth, big id, sibling, scenario)",
 		Gen:   gen, Check: check, Classify: classify,
 		Assumptions: []string{"the Demon's pipe framing and PivotPush wrapping are transcribed from TransportSmb.c / Pivot.c / Command.c"},
 	})
